@@ -380,4 +380,17 @@ def selftest():
     mutate("delete-destructor-event", delete)
     mutate("duplicate-destructor-event", dup)
     mutate("end-hung", hang)
+    # the multi-threaded summary record (h_poolmt dtor-race): accepted as recorded, rejected when another thread's call panicked
+    vlib.cargo_build(["h_poolmt"])
+    rt = os.path.join(wd, "dtorrace.ndjson")
+    vlib.run_bin("h_poolmt", ["dtor-race", rt, "0.5"], timeout=300)
+    okr, rejr, _ = validate_trace(D, "Trace_PoolCallbacks", rt)
+    assert okr, "dtor-race trace rejected: %s" % rejr
+    rr = read_ndjson(rt)
+    rr[1]["obs_panics"] = 1
+    p2 = os.path.join(wd, "dtorrace_bad.ndjson")
+    write_ndjson(p2, rr)
+    ok2, rej2, _ = validate_trace(D, "Trace_PoolCallbacks", p2)
+    print("selftest %-28s -> %s %s" % ("observer-call-panicked", "accepted (BAD)" if ok2 else "rejected", json.dumps(rej2[0])[:160] if rej2 else ""))
+    fails += ok2
     return 1 if fails else 0
